@@ -64,6 +64,11 @@ NETWORKS['mesh-ggn'] = ('meshTopologyExampleV2.json', 'eqpt_config.json',
                         {'nli_params': {'method': 'ggn_approx', 'computed_channels': [10, 14, 20]}})
 # the OpenROADM v5 example designed for a low launch power: the boosters behind the -20 dBm ROADMs run at ~2 dB gain
 NETWORKS['sweden5-lowpower'] = NETWORKS['sweden5']
+# the Raman example with a fibre that brings its own Raman gain profile, tabulated up to 15 THz only (a data sheet),
+# one pump at 205 THz and an amplifier wide enough for L-band carriers (15 to 18 THz below the pump)
+NETWORKS['raman-shorttable'] = ('raman_edfa_example_network.json', 'eqpt_config.json',
+                                {'raman_params': {'flag': True, 'result_spatial_resolution': 10e3,
+                                                  'solver_spatial_resolution': 50}})
 # the EDFA example without its amplifier, designed with no_insert_edfas: an unamplified link (fibre NLI, no ASE at all)
 NETWORKS['edfa-unamplified'] = NETWORKS['edfa']
 DESIGN_ARGS = {'sweden5-lowpower': dict(args_power=-18), 'edfa-unamplified': dict(no_insert_edfas=True)}
@@ -113,6 +118,21 @@ def _variant(name, eqpt_json, topo_json):
             topo_json['connections'] = [c for c in topo_json['connections'] if a not in (c['from_node'], c['to_node'])]
             topo_json['connections'].append({'from_node': before, 'to_node': after})
         topo_json['elements'] = [e for e in topo_json['elements'] if e['uid'] not in amps]
+    if name == 'raman-shorttable':
+        from gnpy.core.parameters import DEFAULT_RAMAN_COEFFICIENT as RC
+        nb = int(sum(1 for x in RC['frequency_offset'] if x <= 15e12))
+        wide = next(dict(a) for a in eqpt_json['Edfa'] if a['type_variety'] == 'std_medium_gain')
+        wide.update(WIDE_BAND)
+        eqpt_json['Edfa'].append(wide)
+        for elem in topo_json['elements']:
+            if elem['type'] == 'RamanFiber':
+                elem['params']['raman_coefficient'] = {
+                    'g0': [float(x) for x in RC['g0'][:nb]], 'frequency_offset': [float(x) for x in RC['frequency_offset'][:nb]],
+                    'reference_frequency': float(RC['reference_frequency'])}
+                elem['operational']['raman_pumps'] = [{'power': 0.4, 'frequency': 205.0e12,
+                                                       'propagation_direction': 'counterprop'}]
+            if elem['type'] == 'Edfa':
+                elem['type_variety'] = 'wide_band'
     if name == 'raman-lowpump':
         for elem in topo_json['elements']:
             if elem['type'] == 'RamanFiber':
@@ -123,7 +143,7 @@ def _variant(name, eqpt_json, topo_json):
     return eqpt_json, topo_json
 
 
-VARIANTS = {'multiband-wide', 'mesh-mixed', 'raman-lowpump', 'edfa-unamplified'}
+VARIANTS = {'multiband-wide', 'mesh-mixed', 'raman-lowpump', 'edfa-unamplified', 'raman-shorttable'}
 
 
 # ------------------------------------------------------------------------------------------------- projections
@@ -360,7 +380,8 @@ def auto_mode_request(eq, src, dst, trx_type, spacing):
     return service_request(eq, src, dst, trx_type, spacing, None)
 
 
-def record(name, netname, src, dst, spectrum=None, ref=None, auto_mode=None, via=None, service=None, **over):
+def record(name, netname, src, dst, spectrum=None, ref=None, auto_mode=None, via=None, service=None, path_objects=None,
+           **over):
     """run the real propagate() - or, with auto_mode=(trx_type, spacing), the real propagate_and_optimize_mode() -
     once on a fresh copy of the path; returns (trace, side) where trace is the integer trace judged by TLC and side
     keeps what a human needs to read a violation (exception text, element uids).  The automatic mode selection
@@ -391,6 +412,8 @@ def record(name, netname, src, dst, spectrum=None, ref=None, auto_mode=None, via
         if any(len(leg) < 2 for leg in legs):
             raise Machinery(f'{name}: no route along {stops} in {netname}')
         path = copy.deepcopy(legs[0] + [el for leg in legs[1:] for el in leg[1:]])
+    elif path_objects is not None:
+        path = path_objects             # the very element objects of an earlier propagation: a second crossing
     else:
         path = copy.deepcopy(rq.compute_constrained_path(net, req))
     if len(path) < 2:
@@ -433,8 +456,16 @@ def record(name, netname, src, dst, spectrum=None, ref=None, auto_mode=None, via
             outcome, exc, tb = 3, f'{type(e).__name__}: {e}', traceback.format_exc()
         finally:
             rq.filter_si = orig_filter
-    if spectrum is None and stages:
-        # uniform grid: the request is f_min / f_max / spacing; the carriers are those the constructor was handed
+    if spectrum is None and not auto_mode and not service:
+        # uniform grid of a fixed-mode request: carriers at f_min + i * spacing, i = 1 .. (f_max - f_min) // spacing,
+        # every one with the request's symbol rate, roll-off, tx power, tx OSNR and power offset
+        n = int((req.f_max - req.f_min) // req.spacing)
+        key = Labels.key(f'{req.baud_rate * 1e-9:.2f}G', req.tx_power, req.tx_osnr, req.roll_off, req.offset_db)
+        labels.declare([key])
+        given = [[mhz(req.f_min + req.spacing * i), int(round(req.spacing / 1e6)), int(round(req.baud_rate / 1e6)),
+                  labels.of(key)] for i in range(1, n + 1)]
+    elif spectrum is None and stages:
+        # automatic mode selection: the symbol rate is chosen by the code; the carriers are those the constructor was handed
         s0 = stages[0][1]
         keys = [Labels.key(s0['label'][k], s0['tx_power'][k], s0['tx_osnr'][k], s0['roll_off'][k],
                            s0['delta_pdb_per_channel'][k]) for k in range(len(s0['frequency']))]
@@ -454,17 +485,92 @@ def record(name, netname, src, dst, spectrum=None, ref=None, auto_mode=None, via
             d = np.abs((snap['signal'] + snap['ase'] + snap['nli']) / snap['pch'] - 1)
         if len(d) and np.all(np.isfinite(d)):
             fdev = max(fdev, float(np.max(d)))
-    rx = dict(f=[], snr=[], osnr=[], onli=[], isnr=[], iosnr=[], inli=[])
+    rx = dict(f=[], snr=[], osnr=[], onli=[], isnr=[], iosnr=[], inli=[], lab=[])
     if outcome == 0 and ev:
         t = path[-1]
+        last = (stages[-1][1] if not rec.events else rec.events[-1]['post'])
+        n = len(ev[-1]['f'])
+
+        def at(a, k):
+            return a[k] if a is not None and k < len(a) else None
+        # the transmitter data the receiving Transceiver itself holds for each carrier (label, tx power)
+        rxlab = [labels.of(Labels.key(at(t.propagated_labels, k), at(t.tx_power, k), last['tx_osnr'][k],
+                                      last['roll_off'][k], last['delta_pdb_per_channel'][k]))
+                 if len(t.tx_power) == n and len(t.propagated_labels) == n else 9999 for k in range(n)]
         rx = dict(f=list(ev[-1]['f']), snr=udbv(t.snr), osnr=udbv(t.osnr_ase), onli=udbv(t.osnr_nli),
-                  isnr=ninv(t.snr), iosnr=ninv(t.osnr_ase), inli=ninv(t.osnr_nli))
+                  isnr=ninv(t.snr), iosnr=ninv(t.osnr_ase), inli=ninv(t.osnr_nli), lab=rxlab)
     si = eq['SI']['default']
     trace = dict(name=name, outcome=outcome, req=given, amps=amp_bands(path), dflt=[mhz(si.f_min), mhz(si.f_max)],
                  ev=ev, rx=rx, ref=ref if ref is not None else dict(f=[], snr=[], osnr=[], onli=[]))
     side = dict(name=name, net=netname, src=src, dst=dst, exception=exc, traceback=tb, uids=uids,
-                nch=len(given), classes=[e['cls'] for e in ev], float_share_dev=fdev)
+                nch=len(given), classes=[e['cls'] for e in ev], float_share_dev=fdev, path=path)
     return trace, side
+
+
+def record_chain(name, netname, pick, launch):
+    """real elements of a designed network called in turn, outside propagate(), on a spectrum built by the caller (loads
+    that a designed line cannot be driven to through its ROADMs and amplifiers, e.g. every carrier of a full band at the
+    +9 dBm limit at a fibre input); ends in a Transceiver of the network.  Same trace format: Launch, Filter (nothing
+    to filter), one event per element, the receiver's figures.
+    pick(net) -> list of elements (deep-copied here); launch() -> SpectralInformation"""
+    from gnpy.core.elements import Transceiver
+    from harness.record import snapshot
+    net, eq, _, sp = network(netname)
+    chain = [copy.deepcopy(el) for el in pick(net)]
+    chain.append(copy.deepcopy(next(n for n in net.nodes() if isinstance(n, Transceiver))))
+    si = launch()
+    labels = Labels()
+    s0 = snapshot(si)
+    keys = [Labels.key(s0['label'][k], s0['tx_power'][k], s0['tx_osnr'][k], s0['roll_off'][k],
+                       s0['delta_pdb_per_channel'][k]) for k in range(len(s0['frequency']))]
+    labels.declare(keys)
+    given = [[mhz(s0['frequency'][k]), int(round(s0['slot_width'][k] / 1e6)), int(round(s0['baud_rate'][k] / 1e6)),
+              labels.of(keys[k])] for k in range(len(keys))]
+    outcome, exc, tb = 0, None, None
+    with sim_params(sp), Recording(keep_element=False) as rec:
+        try:
+            for el in chain:
+                si = el(si)
+        except Exception as e:                              # noqa
+            outcome, exc, tb = 3, f'{type(e).__name__}: {e}', traceback.format_exc()
+    ev = [dict(cls=cls, d=0, ops=[], **project_spectrum(s0, labels)) for cls in ('Launch', 'Filter')]
+    uids = ['', '']
+    for e in rec.events:
+        ev.append(dict(cls=e['cls'], d=int(e['depth']), ops=list(e['ops']), **project_spectrum(e['post'], labels)))
+        uids.append(e['uid'])
+    fdev = 0.0
+    for snap in [s0] + [e['post'] for e in rec.events]:
+        with np.errstate(divide='ignore', invalid='ignore'):
+            d = np.abs((snap['signal'] + snap['ase'] + snap['nli']) / snap['pch'] - 1)
+        if len(d) and np.all(np.isfinite(d)):
+            fdev = max(fdev, float(np.max(d)))
+    rx = dict(f=[], snr=[], osnr=[], onli=[], isnr=[], iosnr=[], inli=[], lab=[])
+    if outcome == 0:
+        t = chain[-1]
+        rx = dict(f=list(ev[-1]['f']), snr=udbv(t.snr), osnr=udbv(t.osnr_ase), onli=udbv(t.osnr_nli),
+                  isnr=ninv(t.snr), iosnr=ninv(t.osnr_ase), inli=ninv(t.osnr_nli), lab=list(ev[-1]['lab']))
+    trace = dict(name=name, outcome=outcome, req=given, amps=[], dflt=[-50_000_000, 50_000_000], ev=ev, rx=rx,
+                 ref=dict(f=[], snr=[], osnr=[], onli=[]))
+    side = dict(name=name, net=netname, src=uids[2] if len(uids) > 2 else '', dst='chain', exception=exc, traceback=tb,
+                uids=uids, nch=len(given), classes=[e['cls'] for e in ev], float_share_dev=fdev, path=chain)
+    return trace, side
+
+
+def full_band_load():
+    """96 carriers on the 50 GHz grid, 32 and 42 GBaud alternating, +9 / +6 / +3 dBm in turn"""
+    from gnpy.core.info import create_arbitrary_spectral_information
+    idx = np.arange(96)
+    pch = 1e-3 * 10 ** (np.choose(idx % 3, [9.0, 6.0, 3.0]) / 10)
+    return create_arbitrary_spectral_information(frequency=191.35e12 + 50e9 * idx, slot_width=50e9, pch=pch,
+                                                 baud_rate=np.where(idx % 2 == 0, 32e9, 42e9), roll_off=0.15,
+                                                 tx_osnr=40.0, tx_power=pch, label='full')
+
+
+def longest_fiber(net, type_variety):
+    from gnpy.core.elements import Fiber
+    fibers = sorted((n for n in net.nodes() if type(n) is Fiber and n.type_variety == type_variety),
+                    key=lambda n: (-n.params.length, n.uid))
+    return fibers[:1]
 
 
 def ref_of(trace):
@@ -553,6 +659,30 @@ def scenarios(tier, seed):
     # --- mesh V2 (single band, Fused nodes, several amplifier models)
     uniform('uniform', 'mesh', 20 if thorough else 2)
     via_route('two-legs-through-a-transponder', 'mesh', 4 if thorough else 1)
+    # grids anchored below the amplifiers' band by a fraction of the spacing
+    uniform('uniform-grid-from-190.96THz', 'mesh', 1, f_min=190.96e12)
+    if thorough:
+        uniform('uniform-75GHz-grid-from-191.0THz', 'mesh', 1, f_min=191.0e12, spacing=75e9, baud_rate=64e9)
+
+    def same_objects_again(netname, tag):
+        """three propagations over the SAME element objects: the uniform grid, then two user spectra with the same
+        plan and the same total power whose strong (+9 dB) and weak (-24 dB) carriers are swapped"""
+        def go():
+            net = network(netname)
+            if net is None:
+                return []
+            s, d = seeded_pairs(net[0], rng, 1)[0]
+
+            def comb(strong_first, tx):
+                return carriers([(hz(50_000 * k), 32e9, 50e9, 's' if (k % 2 == 0) == strong_first else 'w', tx,
+                                  9.0 if (k % 2 == 0) == strong_first else -24.0, 40.0, 0.15) for k in range(12)])
+            out = [record(f'{netname}:{tag}:1-uniform:{s}->{d}', netname, s, d)]
+            for n, sp in ((2, comb(True, 1e-3)), (3, comb(False, 1.5e-3))):
+                out.append(record(f'{netname}:{tag}:{n}-swapped-powers:{s}->{d}', netname, s, d, sp,
+                                  path_objects=out[-1][1]['path']))
+            return out
+        jobs.append(go)
+    same_objects_again('mesh', 'same-objects')
     uniform('uniform-64G-75GHz+10dBm', 'mesh', 2 if thorough else 1, baud_rate=64e9, spacing=75e9, tx_power=1e-2)
     # automatic mode selection: several candidate modes are evaluated on one propagation
     # (the longest route of the example first: its highest-rate mode is not feasible, a second one is evaluated)
@@ -635,6 +765,14 @@ def scenarios(tier, seed):
     uniform('uniform', 'mesh-ggn', 3 if thorough else 1)
     # fibres of either dispersion sign, ROADMs with detailed per-path impairment profiles
     uniform('uniform', 'mesh-mixed', 8 if thorough else 2)
+    # a full band at +3 .. +9 dBm per carrier straight into the longest fibre of either dispersion sign
+    for tv in ('NZDF_NEG', 'SSMF'):
+        jobs.append(lambda tv=tv: [record_chain(f'mesh-mixed:full-band-high-power:{tv}', 'mesh-mixed',
+                                                lambda net: longest_fiber(net, tv), full_band_load)]
+                    if network('mesh-mixed') else [])
+    # high but valid load (+9 dBm per carrier in the spans) on fibres of either dispersion sign
+    with_spectrum('high-power', 'mesh-mixed', lambda: carriers([(hz(50_000 * k), 32e9 if k % 2 else 42e9, 50e9, 'hp', 1e-3,
+                                                                 9.0, 40.0, 0.15) for k in range(12)]), permute=False)
 
     def through_lannion():
         net = network('mesh-mixed')
@@ -645,6 +783,10 @@ def scenarios(tier, seed):
     jobs.append(through_lannion)
     with_spectrum('seeded-mixed', 'mesh-mixed', lambda: carriers(seeded_carriers(rng, -1_800_000, 2_000_000, 24)),
                   permute=thorough)
+    # Raman span whose fibre has its own, shorter, Raman gain table: L-band carriers 15 to 18 THz below the pump
+    with_spectrum('l-band-carriers', 'raman-shorttable',
+                  lambda: carriers([(hz(-6_100_000 + 300_000 * k), 32e9, 50e9, 'L', 1e-3, 0.0, 40.0, 0.15) for k in range(10)]),
+                  permute=False)
     if thorough:
         uniform('uniform', 'sweden4', 8)
         with_spectrum('initial_spectrum2', 'sweden5', lambda: shipped_spectrum('initial_spectrum2.json'))
